@@ -6,6 +6,7 @@ set -u
 here="$(cd "$(dirname "$0")/.." && pwd)"
 m="$1"; prop="$2"; verify="${3:-}"
 export GOFLAGS=-mod=mod GOPROXY=off GOSUMDB=off GOTOOLCHAIN=local; unset GOWORK
+export GOCACHE="${VERIF_SCRATCH_GOCACHE:-/tmp/verif-scratch-gocache}"   # scratch copies at ever new paths would bloat the shared cache
 scratch=$(mktemp -d /tmp/seed.XXXXXX)
 trap 'rm -rf "$scratch"' EXIT
 rsync -a --exclude .git --exclude _mut /repo/ "$scratch/repo/"
